@@ -102,19 +102,22 @@ def _ts(name):
     if name == "ts_dead":
         # two trees with different internal nodes; each tree has a site whose mutation sits on the node that
         # exists only in the OTHER tree (a dead branch here, with samples below it there)
-        tc = tskit.TableCollection(2.0)
+        # (four trees, so that going from the last tree to the first is shorter through the null state)
+        tc = tskit.TableCollection(4.0)
         for t in (0, 0, 0):
             tc.nodes.add_row(1, t)
         tc.nodes.add_row(0, 1)
         tc.nodes.add_row(0, 1)
-        for l, r, p, c in ((0, 1, 3, 0), (0, 1, 3, 1), (0, 1, 3, 2), (1, 2, 4, 0), (1, 2, 4, 1), (1, 2, 4, 2)):
-            tc.edges.add_row(l, r, p, c)
-        tc.sites.add_row(0.25, "0")
-        tc.sites.add_row(0.5, "0")
-        tc.sites.add_row(1.5, "0")
-        tc.mutations.add_row(0, 4, "1")
-        tc.mutations.add_row(1, 0, "1")
-        tc.mutations.add_row(2, 3, "1")
+        for j in range(4):
+            p = 3 if j % 2 == 0 else 4
+            for c in (0, 1, 2):
+                tc.edges.add_row(j, j + 1, p, c)
+        for j in range(4):
+            other = 4 if j % 2 == 0 else 3
+            s0 = tc.sites.add_row(j + 0.25, "0")
+            tc.mutations.add_row(s0, other, "1")
+            s1 = tc.sites.add_row(j + 0.5, "0")
+            tc.mutations.add_row(s1, j % 3, "1")
         tc.sort()
         return tc.tree_sequence()
     if name == "ts_full":
@@ -634,7 +637,8 @@ def probes(obj):
                ("kc_distance", {"other": "SELFLIKE"}), ("map_mutations", {"genotypes": [0] * obj.tree_sequence.num_samples,
                                                                           "alleles": ("0",)})]
     elif isinstance(obj, tskit.Variant):
-        out = [("decode", {"site_id": 0}), ("copy", {}), ("counts", {}), ("__str__", {}), ("genotypes", None)]
+        out = [("decode", {"site_id": 0}), ("decode", {"site_id": obj.tree_sequence.num_sites - 1}), ("copy", {}), ("counts", {}),
+               ("__str__", {}), ("genotypes", None)]
     elif isinstance(obj, tskit.LdCalculator):
         out = [("r2_array", {"a": 0, "max_sites": 1}), ("r2_array", {"a": 0}), ("r2_array", {"a": 5, "direction": -1, "max_sites": 1}),
                ("r2_array", {"a": 1, "max_distance": 0.5}), ("r2", {"a": 0, "b": 1}), ("r2_matrix", {})]
@@ -653,6 +657,30 @@ def do_call(obj, mname, args, objname):
             for t in tabs:
                 for j in range(t.num_rows):
                     t[j]
+            return "ok", None
+        if mname == "SETROWS":
+            # row replacement where ONE ragged field changes its length and the others keep theirs
+            import dataclasses
+
+            for j in range(obj.num_rows):
+                row = obj[j]
+                for f in dataclasses.fields(row):
+                    v = getattr(row, f.name)
+                    if f.name == "metadata" or not isinstance(v, (bytes, str)) and not hasattr(v, "dtype"):
+                        continue
+                    for n in (0, 1, 3, 4096, 300000):
+                        if isinstance(v, bytes):
+                            nv = b"x" * n
+                        elif isinstance(v, str):
+                            nv = "y" * n
+                        else:
+                            nv = [0] * n
+                        try:
+                            obj[j] = row.replace(**{f.name: nv})
+                        except Exception:  # noqa
+                            pass
+            for j in range(obj.num_rows):
+                obj[j]
             return "ok", None
         if mname == "ARRAYS":
             for a in ("parent_array", "left_child_array", "right_sib_array", "edge_array", "num_children_array"):
@@ -757,6 +785,9 @@ def iter_single(objname, part=0, parts=1, pairs=True):
     if part == 0:
         for p in props:
             yield i, p, None
+            i += 1
+        if hasattr(obj, "add_row"):
+            yield i, "SETROWS", {}
             i += 1
 
 
